@@ -324,6 +324,29 @@ m_nextiv_null(IMB_JOB *j, item_t *it, int v)
         return 1;
 }
 
+/* PON: payload length indicator of the XGEM header larger than the payload the job describes (CTR and no-CTR form) */
+static int
+m_pon_pli(IMB_JOB *j, item_t *it, int v)
+{
+        if (A->family != F_PON)
+                return 0;
+        uint8_t *s = (uint8_t *) (uintptr_t) it->src;
+        uint32_t payload = it->len - 8, pli = (v & 1) ? payload + 1 : payload + 600;
+        if (pli <= 4)
+                pli = 5;
+        if (v >= 2) { /* no-CTR form: only CRC and BIP */
+                j->enc_keys = NULL;
+                j->dec_keys = NULL;
+                j->key_len_in_bytes = 0;
+                j->iv = NULL;
+                j->iv_len_in_bytes = 0;
+                j->msg_len_to_cipher_in_bytes = 0;
+        }
+        s[0] = (uint8_t) (pli >> 6);
+        s[1] = (uint8_t) ((pli << 2) | (s[1] & 3));
+        return 1;
+}
+
 static const mut_t MUTS[] = {
         { "src-null", m_src_null, 1, { IMB_ERR_JOB_NULL_SRC }, 1 },
         { "dst-null", m_dst_null, 1, { IMB_ERR_JOB_NULL_DST }, 2 },
@@ -345,6 +368,7 @@ static const mut_t MUTS[] = {
         { "aad-null", m_aad_null, 1, { IMB_ERR_JOB_NULL_AAD }, 15 },
         { "aad-len-over", m_aadlen_over, 2, { IMB_ERR_JOB_AAD_LEN }, 16 },
         { "next-iv-null", m_nextiv_null, 1, { IMB_ERR_JOB_NULL_NEXT_IV }, 17 },
+        { "pon-pli-over-payload", m_pon_pli, 4, { IMB_ERR_JOB_PON_PLI }, 18 },
 };
 #define NMUT ((int) (sizeof MUTS / sizeof MUTS[0]))
 /* codes with dedicated names for the hash-key pointers */
@@ -721,7 +745,7 @@ main(void)
         exp_dst = malloc(MAXB + 256);
         par_run((long) NALGS * NVARIANTS, n_workers(), run_alg_variant, crashed, NULL, 900);
         rec_begin("meta");
-        rec_s("rule", "fault = single-field violation (19 mutation kinds x value variants) of a valid baseline job, and every pair of "
+        rec_s("rule", "fault = single-field violation (20 mutation kinds x value variants) of a valid baseline job, and every pair of "
                       "violations on different fields; per algorithm row, direction, variant; job API and positions 0/1/2 of a "
                       "3-job asynchronous burst; plus boundary values that must be accepted");
         rec_i("mutation_kinds", NMUT);
